@@ -222,7 +222,43 @@ impl Direct {
             });
         }
         let was_leader = state.role == RaftState::Leader;
+        let was_candidate = state.role == RaftState::Candidate;
+        let old_term = state.term;
+        let old_commit = state.commit_index;
+        let old_last: (usize, usize) = state.log.last().map_or((0, 0), |e| (e.term_received, e.index));
         let old_log: Vec<(usize, usize)> = state.log.iter().map(|e| (e.index, e.term_received)).collect();
+        // what was delivered (for the outcome counters below; classified on the REAL state before/after)
+        let rvs: Vec<(u32, usize, usize, usize)> = input
+            .messages
+            .iter()
+            .filter_map(|(from, m)| match m {
+                RaftRpc::RequestVote(r) => Some((from.get_raw_id(), r.term, r.last_log_term, r.last_log_index)),
+                _ => None,
+            })
+            .collect();
+        let max_in_term = input
+            .messages
+            .iter()
+            .map(|(_, m)| match m {
+                RaftRpc::RequestVote(r) => r.term,
+                RaftRpc::RequestVoteResponse(r) => r.term,
+                RaftRpc::AppendEntries(a) => a.term,
+                RaftRpc::AppendEntriesReply(r) => r.term,
+            })
+            .max()
+            .unwrap_or(0);
+        let aes: Vec<(usize, usize, usize, usize)> = input
+            .messages
+            .iter()
+            .filter_map(|(_, m)| match m {
+                RaftRpc::AppendEntries(a) => Some((a.term, a.prev_log_index, a.entries.len(), a.leader_commit)),
+                _ => None,
+            })
+            .collect();
+        let aer_fail_current = input.messages.iter().any(|(_, m)| match m {
+            RaftRpc::AppendEntriesReply(r) => !r.success && r.term == old_term,
+            _ => false,
+        });
         let res = catch(AssertUnwindSafe(|| raft_step(state, input)));
         match res {
             Err(msg) => {
@@ -257,6 +293,55 @@ impl Direct {
                 let new_log: Vec<(usize, usize)> = state.log.iter().map(|e| (e.index, e.term_received)).collect();
                 if !new_log.starts_with(&old_log) {
                     rec.count("log-truncated-or-overwritten");
+                }
+                // outcome counters for the anchored branches of raft_step
+                let final_term = old_term.max(max_in_term);
+                for (from, t, llt, lli) in &rvs {
+                    let granted = out.outbound.iter().any(|(to, m)| {
+                        to.get_raw_id() == *from && matches!(m, RaftRpc::RequestVoteResponse(_))
+                    });
+                    rec.count(if granted {
+                        "rv-granted"
+                    } else if *t < final_term {
+                        "rv-denied-stale-term"
+                    } else if (*llt, *lli) < old_last {
+                        "rv-denied-log-not-up-to-date"
+                    } else {
+                        "rv-denied-already-voted-or-own-candidacy"
+                    });
+                }
+                for (t, prev, len, lc) in &aes {
+                    if *t < final_term {
+                        rec.count("ae-stale-term-rejected");
+                    } else if *prev + *len < *lc && state.commit_index == *prev + *len && state.commit_index > old_commit {
+                        rec.count("ae-commit-capped-by-new-match");
+                    }
+                }
+                if was_leader && state.role != RaftState::Leader {
+                    rec.count("leader-stepped-down");
+                }
+                if was_candidate && state.role == RaftState::Follower && state.term == old_term {
+                    rec.count("candidate-deposed-by-same-term-leader");
+                }
+                if was_leader && state.role == RaftState::Leader && aer_fail_current {
+                    rec.count("leader-got-aer-fail-current-term");
+                }
+                if state.commit_index > old_commit {
+                    if state.role == RaftState::Leader {
+                        rec.count("commit-advanced-by-leader");
+                        if state.log[old_commit..state.commit_index].iter().any(|e| e.term_received < state.term) {
+                            rec.count("commit-advance-covers-older-term-entries");
+                        }
+                    } else {
+                        rec.count("commit-advanced-by-follower");
+                    }
+                }
+                if state.role == RaftState::Leader
+                    && state.log.len() > state.commit_index
+                    && state.log[state.commit_index..].iter().all(|e| e.term_received < state.term)
+                    && was_leader
+                {
+                    rec.count("leader-holds-only-older-term-uncommitted-entries");
                 }
                 let com: Vec<_> = out.committed.iter().map(entry_tuple).collect();
                 self.oracle.committed_out(rec, me, &com);
